@@ -26,8 +26,11 @@ def seeded(U, rnd, quick):
                 for _ in range(30):
                     ts, rv = rnd.choice(TS), rnd.choice(REV)
                     M, m, p = rnd.choice([0, 1, 2]), rnd.choice([0, 1, 2]), rnd.choice([0, 1, 2, 3])
-                    texts.add(rnd.choice(["v%d.0.0-%s-%s" % (M, ts, rv), "v%d.%d.%d-0.%s-%s" % (M, m, p, ts, rv),
-                                          "v%d.%d.%d-%s.0.%s-%s" % (M, m, p, rnd.choice(["pre", "rc.1", "alpha", "0"]), ts, rv)]))
+                    pv = rnd.choice(["v%d.0.0-%s-%s" % (M, ts, rv), "v%d.%d.%d-0.%s-%s" % (M, m, p, ts, rv),
+                                     "v%d.%d.%d-%s.0.%s-%s" % (M, m, p, rnd.choice(["pre", "rc.1", "alpha", "0"]), ts, rv)])
+                    texts.add(pv)
+                    if rnd.random() < 0.5:      # the same pseudo-version with build metadata: ignored by precedence
+                        texts.add(pv + rnd.choice(["+incompatible", "+meta.1", "+b"]))
                     texts.add("v%d.%d.%d" % (M, m, p)); texts.add("v%d.%d.%d-%s" % (M, m, p, rnd.choice(["0", "pre", "rc.1", "alpha", "pre.0", "1"])))
             jobs.append({"k": "matrix", "eco": eco, "tag": "seeded", "texts": sorted(texts), "part": []})
     return jobs
